@@ -255,10 +255,16 @@ Section Hloc.
       + reflexivity.
     - cbn [M_locmap S_pick]. rewrite Mpos_one. unfold pflat. cbn [part_flat]. f_equal.
       apply map_ext. intro i. lia.
-    - destruct a as [x|], c as [y|]; cbn [sel_guard] in Hg; try discriminate; cbn [M_locmap S_pick slice_bound].
+    - destruct a as [x|], c as [y|]; cbn [M_locmap S_pick slice_bound].
       + destruct (idx x ls) as [i|] eqn:Ex; [|reflexivity].
         destruct (idx y ls) as [j|] eqn:Ey; [|reflexivity].
         cbn [option_map]. destruct (idx_some _ _ _ Ex) as [_ Hi]. destruct (idx_some _ _ _ Ey) as [_ Hj].
+        rewrite Mpos_one, pflat_slice by lia. rewrite map_seq_zrange. f_equal. f_equal; lia.
+      + destruct (idx x ls) as [i|] eqn:Ex; [|reflexivity].
+        destruct (idx_some _ _ _ Ex) as [_ Hi]. unfold zlen.
+        rewrite Mpos_one, pflat_slice by lia. rewrite map_seq_zrange. f_equal. f_equal; lia.
+      + destruct (idx y ls) as [j|] eqn:Ey; [|reflexivity].
+        cbn [option_map]. destruct (idx_some _ _ _ Ey) as [_ Hj].
         rewrite Mpos_one, pflat_slice by lia. rewrite map_seq_zrange. f_equal. f_equal; lia.
       + unfold zlen. replace (length ls - 0)%nat with (length ls) by lia. exact ALL.
     - cbn [sel_guard andb] in Hg. apply Nat.eqb_eq in Hg.
